@@ -48,6 +48,20 @@ def engine():
     return ENG
 
 
+_PROXY_NAMES = ("SymBytes", "SymInt", "SymStr", "SymBool", "SymLabel", "SymDict", "SymList", "SymScaled", "IntShim", "IntTable", "SymBytesIO",
+                "SymView", "StrKeyMap", "MergedList")
+
+
+def proxy_induced(ex):
+    seen = 0
+    while ex is not None and seen < 6:
+        if any(n in str(ex) for n in _PROXY_NAMES):
+            return True
+        ex = ex.__cause__ or ex.__context__
+        seen += 1
+    return False
+
+
 class Path:
     """outcome of one explored path"""
 
@@ -482,6 +496,9 @@ class Engine:
                 out = ('nomerge', c)
             except Exception as ex:  # the code under test raised
                 out = ('exc', ex)
+                if isinstance(ex, (TypeError, AttributeError)) and proxy_induced(ex):
+                    # a builtin or C-level API rejected a proxy value: an engine limitation, not behaviour of the code under test
+                    out = ('unsupported', Unsupported(f"proxy reached an operation it cannot model: {ex}"))
             self.npaths += 1
             if self.pos < len(self.trail):
                 # the run ended before consuming the replay prefix: drop the unreachable tail
@@ -1608,6 +1625,26 @@ def merge(c, then, els, names, poison=False):
                 raise
             out[n] = Poison(n, str(e))
     return out
+
+
+def join(sep, parts):
+    """<literal>.join(parts) with proxy-aware parts"""
+    parts = list(parts)
+    if all(isinstance(x, type(sep)) for x in parts):
+        return sep.join(parts)
+    if isinstance(sep, bytes):
+        out = SymBytes([])
+        for i, x in enumerate(parts):
+            if i:
+                out = out + sep
+            out = out + x
+        return out
+    out = SymStr([])
+    for i, x in enumerate(parts):
+        if i:
+            out = out + sep
+        out = out + x
+    return out.norm()
 
 
 def vars_of(t):
